@@ -795,10 +795,10 @@ pub const RULE_LIVE: &str = "the in-process case space served by a real server (
      204/3xx, declared/explicit headers, Location; illegal locations must yield an error status; class as in process plus body framing";
 
 /// one client thread: `cases` requests on one keep-alive connection
-pub fn live_client(rep: &mut Report, addr: std::net::SocketAddr, seed: u64, shard: u64, cases: u64) -> Vec<u64> {
+pub fn live_client(rep: &mut Report, addr: std::net::SocketAddr, seed: u64, shard: u64, first: u64, cases: u64) -> Vec<u64> {
     let mut ran = vec![];
     let mut conn: Option<Conn> = None;
-    for c in 0..cases {
+    for c in first..first + cases {
         // the selector generator decides the endpoint; the case generator (same
         // label as the handlers') decides everything else
         let mut sel = Rng::derive(seed, "c12-live-select", shard, c);
@@ -940,49 +940,21 @@ pub fn live_client(rep: &mut Report, addr: std::net::SocketAddr, seed: u64, shar
 }
 
 pub fn run_live(seed: u64, threads: usize, cases_per_thread: u64) -> Report {
-    let mut rep = Report::new("C12", "E2-live-typed-responses", RULE_LIVE);
-    let api = match build_api() {
-        Ok(a) => a,
-        Err(e) => {
-            rep.inconclusive(&format!("harness API not accepted: {e}"));
-            return rep;
-        }
+    let plan = crate::live::Plan {
+        property: "C12",
+        engine: "E2-live-typed-responses",
+        rule: RULE_LIVE,
+        seed,
+        threads,
+        cases_per_thread,
+        body_max: 1024,
     };
-    let log = vmon::evlog::EvLog::new();
-    let ctx = vmon::srv::Ctx::new(log.clone());
-    let cfg = vmon::srv::SrvCfg { workers: 4, ..Default::default() };
-    let mut running = match vmon::srv::start(api, ctx, &cfg) {
-        Ok(r) => r,
-        Err(e) => {
-            rep.inconclusive(&format!("server start: {e}"));
-            return rep;
+    crate::live::rounds(&plan, build_api, live_client, &mut |rep, log, ran: Vec<u64>| {
+        let entered = log.count_kind("H_ENTER") as u64;
+        rep.count("responses", ran.len() as u64);
+        rep.count("handler-entries", entered);
+        if entered != ran.len() as u64 {
+            rep.inconclusive("handler entries differ from responses read");
         }
-    };
-    let addr = running.addr;
-    let hs: Vec<_> = (0..threads)
-        .map(|t| {
-            std::thread::Builder::new()
-                .name(format!("client{t}"))
-                .spawn(move || {
-                    let mut r = Report::new("C12", "E2-live-typed-responses", RULE_LIVE);
-                    let ran = live_client(&mut r, addr, seed, t as u64, cases_per_thread);
-                    (r, ran)
-                })
-                .unwrap()
-        })
-        .collect();
-    let mut answered = 0u64;
-    for h in hs {
-        let (r, ran) = h.join().expect("client thread panicked");
-        answered += ran.len() as u64;
-        rep.merge(r);
-    }
-    let entered = log.count_kind("H_ENTER") as u64;
-    rep.count("responses", answered);
-    rep.count("handler-entries", entered);
-    if entered != answered {
-        rep.inconclusive("handler entries differ from responses read");
-    }
-    let _ = running.close();
-    rep
+    })
 }
